@@ -32,7 +32,8 @@ S = 1.0 / 3600.0
 VALUES = [0.0, S, -S, 0.5, -0.5, 0.3, -0.3, 1.0, -1.0, 2.0 + 1.0 / 60, -(2.0 + 1.0 / 60),
           59.0 + 59.0 / 60 + 59.999999 / 3600, -(59.0 + 59.0 / 60 + 59.999999 / 3600), 60.0, 90.0, 180.0,
           359.0 + 59.0 / 60 + 59.0 / 3600, 360.0]
-KS = [2, -1, 0.5, 3, -0.25]
+import numpy as _np
+KS = [2, -1, 0.5, 3, -0.25, _np.float64(-2.0), _np.int64(3)]
 MODS = [360, 90, 1]
 NS = [0, 1, 2, 3, 4]
 ROUND_UNIT = {'deca': ('deg', lambda o: o.dec_angle), 'gona': ('gon', lambda o: o.gon_angle),
@@ -107,7 +108,8 @@ def transitions(a, ka, leaves):
     yield ('abs', lambda: abs(a), abs(da), ka, 'val')
     for k in KS:
         yield ('mul %r' % k, lambda k=k: a * k, da * k, ka, 'val')
-        yield ('rmul %r' % k, lambda k=k: k * a, k * da, ka, 'val')
+        if not isinstance(k, _np.generic):      # numpy_scalar * angle is numpy's own operation (DECAngle is a float)
+            yield ('rmul %r' % k, lambda k=k: k * a, k * da, ka, 'val')
         yield ('div %r' % k, lambda k=k: a / k, da / k, ka, 'val')
     if ka in ('dms', 'ddm'):
         for k in MODS:
@@ -132,12 +134,19 @@ def explore(rec, start, depth, leaves):
         if d >= depth:
             continue
         ka = kind_of(a)
+        ka_key = key(a)
         for label, fn, exp, ecls, kind in transitions(a, ka, leaves):
             if kind == 'val' and abs(exp) >= 720.0:
                 continue
             rec.transitions += 1
             try:
                 r = fn()
+                if key(a) != ka_key:
+                    # an operator that changes its own operand makes every later use of that angle depend on call order
+                    rec.fail('operator modified its operand in place', site='angles:%s.%s:mutation' % (ka, label.split()[0]),
+                             observed=repr(a), expected=repr(ka_key), coords={'path': path + [label], 'cls': ka})
+                    rec.outcome('mutated')
+                    break
             except Exception as e:
                 rec.fail('operator raised on valid operands', site='angles:%s.%s' % (ka, label.split()[0]), observed=e,
                          coords={'path': path + [label], 'cls': ka})
@@ -183,6 +192,10 @@ def explore(rec, start, depth, leaves):
                 rec.states.add(hash(k) & 0xFFFFFFFFFFFFFFFF)
                 if abs(r.dec()) < 720.0:
                     frontier.append((r, d + 1, path + [label]))
+    for (v, kb, b) in leaves:
+        if b is not None and abs(b.dec() - v) > 1e-9:
+            rec.fail('a right-hand operand was modified in place during the exploration', site='angles:operand:mutation',
+                     observed=repr(b), expected=v)
     rec.outcome('explored')
 
 
@@ -277,6 +290,6 @@ SUBCHECKS = [
 
 
 def bounds(tier, seed):
-    return {'leaf_values': len(VALUES), 'classes': CLASSES, 'scalars': KS, 'mods': MODS, 'round_places': NS,
+    return {'leaf_values': len(VALUES), 'classes': CLASSES, 'scalars': [repr(k) for k in KS], 'mods': MODS, 'round_places': NS,
             'depth_full_alphabet': 3, 'depth_sub_alphabet': 4 if tier == 'thorough' else None,
             'chain_depth': 6, 'chain_assignments': 5 ** 7}
